@@ -29,6 +29,8 @@ def confirm(k, d):
         import re as _re
         mfe = _re.search(r"--features[ =](\S+)", meta.get("demo_cmd", ""))
         feat = ["--features", mfe.group(1)] if mfe else []
+        if "--release" in meta.get("demo_cmd", ""):
+            feat = ["--release"] + feat
         subprocess.run(["git", "-C", "/repo", "worktree", "remove", "--force", wt], stdout=subprocess.DEVNULL, stderr=subprocess.DEVNULL)
         rc, out = sh(["git", "-C", "/repo", "worktree", "add", "-q", "--detach", wt, "HEAD"], "/")
         if rc != 0:
